@@ -183,3 +183,26 @@ def run_impl_resilient(mode, lines, seed=1):
             sides += (sd + [""] * len(u))[:len(u)]
         break
     return answers, sides, aborts
+
+
+def run_impl_conc(lines, seed=1, timeout=3600):
+    """conc mode: returns (answers, sides, trace lines, crashed?)."""
+    os.makedirs(os.path.join(CACHE, "tmp"), exist_ok=True)
+    base = os.path.join(CACHE, "tmp", "conc.%d.%d" % (os.getpid(), time.time_ns()))
+    env = dict(ENV, VERIF_SEED=str(seed))
+    p = subprocess.run([DVH, "conc", "-", base + ".side", base + ".trace"], input="\n".join(lines) + "\n", env=env,
+                       stdout=subprocess.PIPE, stderr=subprocess.PIPE, text=True, timeout=timeout)
+    out = p.stdout.split("\n")
+    if out and out[-1] == "":
+        out.pop()
+    sides, trace = [], []
+    if os.path.exists(base + ".side"):
+        sides = open(base + ".side").read().split("\n")
+        os.unlink(base + ".side")
+    if os.path.exists(base + ".trace"):
+        trace = [l for l in open(base + ".trace").read().split("\n") if l]
+        os.unlink(base + ".trace")
+    n = len(lines)
+    out = (out + ["ABORT"] * n)[:n]
+    sides = (sides + [""] * n)[:n]
+    return out, sides, trace, p.returncode != 0
